@@ -154,6 +154,60 @@ def gen_cases(tier, rnd):
     return cases
 
 
+# ---- the periodic-dump timer driven directly (deterministic interleavings of stop() and a dump) ----
+RT_SCHEDULES = [
+    ['Stop'],
+    ['Fire', 'DumpDone', 'Stop'],
+    ['Fire', 'Stop', 'DumpDone'],                         # stop() falls into a dump
+    ['Fire', 'Fire', 'Stop', 'DumpDone', 'DumpDone'],     # ... into two overlapping dumps
+    ['Fire', 'DumpDone', 'Fire', 'Stop', 'DumpDone'],
+    ['Fire', 'DumpDone', 'Stop', 'Fire'],                 # nothing expires after stop()
+    ['Fire', 'Stop', 'Fire', 'DumpDone'],                 # ... not even while the dump is still going
+]
+RT_SCHEDULES_THOROUGH = [
+    ['Fire', 'Fire', 'DumpDone', 'Stop', 'DumpDone'],
+    ['Fire', 'Fire', 'Fire', 'Stop', 'DumpDone', 'DumpDone', 'DumpDone'],
+    ['Fire', 'Stop', 'DumpDone', 'Fire'],
+    ['Fire', 'DumpDone', 'Fire', 'DumpDone', 'Fire', 'Stop', 'DumpDone'],
+    ['Stop', 'Fire'],
+    ['Fire', 'Stop', 'Stop', 'DumpDone'],
+]
+
+
+def rt_model(sched, rearm_first=True):
+    """python copy of Cli/MainEffects.v rt_step: (fires, threads after the dumps are over)"""
+    running, cur, dumping, orphans = True, 'Armed', 0, 0
+    fires = []
+
+    def start():
+        nonlocal running, cur, orphans
+        if not running:
+            if cur == 'Armed':
+                orphans += 1
+            running, cur = True, 'Armed'
+    for e in sched + ['Drain']:
+        if e == 'Fire':
+            fires.append(cur == 'Armed')
+            if cur == 'Armed':
+                running, cur, dumping = False, 'Fired', dumping + 1
+                if rearm_first:
+                    start()
+        elif e in ('DumpDone', 'Drain'):
+            for _ in range(dumping if e == 'Drain' else min(dumping, 1)):
+                dumping -= 1
+                if not rearm_first:
+                    start()
+        elif e == 'Stop':
+            running = False
+            if cur == 'Armed':
+                cur = 'Cancelled'
+    return fires, (1 if cur == 'Armed' else 0) + orphans + dumping
+
+
+def q_rt(sched, o):
+    return '(rt_case %s %s %s)' % (core.coq_list(sched), core.coq_list([core.coq_bool(f) for f in o['fires']]), core.coq_z(o['threads']))
+
+
 # ---- the property, python side -------------------------------------------------------------------
 def py_bits(case, o):
     before, final = o['before'], o['seen'][-1]
@@ -252,11 +306,13 @@ def q_gp(init):
 
 
 def q_run(r):
-    return '(mkOpts %s %s %s %s %s %s %s "/T", mkProg %s %s %s %s)' % (
+    return '(mkOpts %s %s %s %s %s %s %s "/T", mkProg %s %s %s %s [])' % (
         core.coq_bool(r['l']), core.coq_bool(r['b']), core.coq_bool(r['m']),
         core.coq_opt(core.coq_str(r['setup']) if r['setup'] else None), core.coq_z(r['interval']),
         q_strs(r['new_argv']), core.coq_str(r['script_dir']),
         COQ_OUTCOME[r['outcome']], core.coq_bool(r['tp']), core.coq_bool(r['ta']), core.coq_bool(not r['explicit']))
+    # p_sched = []: in these runs the program ends long before the first expiry (N >= 2 s); the
+    # interleavings of stop() with a dump are exercised on the RepeatedTimer directly (RT_SCHEDULES)
 
 
 def q_seen(s, base_threads):
@@ -280,13 +336,15 @@ Definition c19_case (s : St) (rs : list run) (os : list seen) (use : Z) : bool *
 '''
 
 
-def run_driver(impl, cases, tmp):
-    payload = dict(tmp=str(tmp), files=all_files(),
+def run_driver(impl, cases, tmp, rt=()):
+    payload = dict(tmp=str(tmp), files=all_files(), rt=list(rt),
                    cases=[dict(init=c['init'], runs=[dict(args=[a.replace('{TMP}', str(tmp)) for a in r['args']]) for r in c['runs']])
                           for c in cases])
     out = core.run_impl(impl, DRIVER, payload, timeout=1500, cwd=str(tmp))
     if not out.get('kernprof_file', '').startswith(str(impl)):
         raise RuntimeError('kernprof was not imported from the scratch build: %r' % out.get('kernprof_file'))
+    if rt:
+        return out['cases'], out['rt']
     return out['cases']
 
 
@@ -318,11 +376,22 @@ def run(tier, seed):
             p = core.VERIF / 'findings' / (fid + '.json')
             if p.exists():
                 cases.append(dict(json.loads(p.read_text())['case'], kind='finding-replay'))
-        out = run_driver(impl, cases, tmp)
+        rt_scheds = RT_SCHEDULES + (RT_SCHEDULES_THOROUGH if tier == 'thorough' else [])
+        out, rt_out = run_driver(impl, cases, tmp, rt=rt_scheds)
+
+        def rt_fail(sched, o):
+            if 'Stop' in sched and o['threads'] != 0:
+                return dict(case=dict(kind='repeated-timer', schedule=sched, clause=BITNAMES[16]), impl=o,
+                            why='RepeatedTimer: %d timer thread(s) alive after stop() and after the dumps in progress returned '
+                                '(schedule %s)' % (o['threads'], ' '.join(sched)), finding=None)
+            return None
 
         def search(budget):
             c2 = gen_cases('thorough', core.rng(seed + 1, PROP))
-            o2 = run_driver(impl, c2, tmp)
+            o2, rt2 = run_driver(impl, c2, tmp, rt=RT_SCHEDULES + RT_SCHEDULES_THOROUGH)
+            for sc, o in zip(RT_SCHEDULES + RT_SCHEDULES_THOROUGH, rt2):
+                if rt_fail(sc, o):
+                    return rt_fail(sc, o)
             known = {e['id'] for e in core.load_findings(PROP)}
             first_known = None
             for c, o in zip(c2, o2):
@@ -347,7 +416,20 @@ def run(tier, seed):
                 body = 'Definition rows : list (bool * Z) := [\n' + ';\n'.join(q_case(cases[i], out[i]) for i in ch) + '].\n'
                 body += 'Eval vm_compute in (false_indices (map fst rows)).\nEval vm_compute in (map snd rows).\n'
                 bodies.append(body)
+            rt_body = 'Definition rows : list (bool * bool) := [\n' + ';\n'.join(q_rt(sc, o) for sc, o in zip(rt_scheds, rt_out)) + '].\n'
+            rt_body += 'Eval vm_compute in (false_indices (map fst rows)).\nEval vm_compute in (false_indices (map snd rows)).\n'
+            bodies.append(rt_body)
             shards = core.run_shards('c19', HEADER, bodies)
+            rt_shard = shards.pop()
+            if rt_shard[0] != 'ok' or len(rt_shard[1]) != 2:
+                res.infra_errors.append('timer shard failed: %s' % str(rt_shard[1])[-600:])
+            else:
+                for j in rt_shard[1][0]:
+                    res.mismatches.append(dict(case=dict(kind='repeated-timer', schedule=rt_scheds[j]), impl=rt_out[j],
+                                               model='rt_step (re-arm before dump) predicts fires=%r threads=%r' % rt_model(rt_scheds[j])))
+                for j in rt_shard[1][1]:
+                    if not rt_fail(rt_scheds[j], rt_out[j]):
+                        res.infra_errors.append('python and Coq disagree on timer schedule %d' % j)
             for k, sres in enumerate(shards):
                 if sres[0] != 'ok' or len(sres[1]) != 2 or len(sres[1][1]) != len(chunks[k]):
                     res.infra_errors.append('shard %d failed: %s' % (k, str(sres[1])[-600:]))
@@ -358,6 +440,14 @@ def run(tier, seed):
                     res.mismatches.append(dict(case=cases[i], impl=out[i], model='Cli/MainEffects.v (current) predicts a different observation'))
                 for j, bits in enumerate(bitlist):
                     coq_bits[chunks[k][j]] = bits
+        for sc, o in zip(rt_scheds, rt_out):
+            if o['noisy']:
+                res.notes.append('timer schedule %s: an unscheduled expiry slipped in twice (machine stalled)' % ' '.join(sc))
+            f = rt_fail(sc, o)
+            if f:
+                res.spec_fails.append(f)
+            elif (o['fires'], o['threads']) != rt_model(sc) and not model_ok:
+                res.mismatches.append(dict(case=dict(kind='repeated-timer', schedule=sc), impl=o, model=repr(rt_model(sc))))
         stats = dict(runs=0, raised=0, timed=0, module=0, line=0, builtin=0, setup=0)
         bit_hist = {}
         kinds = {}
@@ -390,13 +480,15 @@ def run(tier, seed):
         n_stale = sum(1 for c, o in zip(cases, out) for r, s in zip(c['runs'], o['seen'])
                       if s['raised'] and COQ_OUTCOME[r['outcome']] != 'Exc')
         res.coverage = dict(
-            evaluations=len(cases), distinct_nontrivial=len(distinct),
+            evaluations=len(cases) + len(rt_scheds), distinct_nontrivial=len(distinct) + len(rt_scheds),
+            repeated_timer_schedules=[dict(schedule=sc, fires=o['fires'], threads=o['threads']) for sc, o in zip(rt_scheds, rt_out)],
             rule='every case is non-trivial (at least one real kernprof.main run that executes a generated program); distinct by '
                  'initial state and the kernprof argument lists of its runs.  Complete enumeration of the 32 effect-relevant option sets '
                  '(-l, -b, -m, -s, -i N) x 5 program outcomes (return, sys.exit, KeyboardInterrupt, raise at top level, raise inside a '
                  'profiled function) as single runs, all ordered pairs of 6 core behaviours, plus seeded random runs / sequences of 2-3 runs '
                  'with irrelevant options (-v -z -r -u -o -p --prof-imports), program edits of sys.path / sys.argv, script given relative / in a '
-                 'subdirectory / absolute, decided and undecided initial decorator',
+                 'subdirectory / absolute, decided and undecided initial decorator; plus the real kernprof.RepeatedTimer driven through '
+                 'deterministic schedules of expiry / dump completion / stop() (a blocking dump function places stop() inside a dump)',
             exhaustive=True, case_kinds=kinds, runs_per_case=lens, run_stats=stats, outcomes=outcomes,
             clause_failure_bits_histogram={str(k): v for k, v in sorted(bit_hist.items())},
             hypothesis_holds_on=dict(usable_initial_state=len(cases), cases_where_main_raised=n_raise, cases_with_interval_timer=n_timed,
@@ -430,6 +522,11 @@ def replay(path):
     tmp.mkdir(parents=True, exist_ok=True)
     tmp = tmp.resolve()
     try:
+        if c.get('kind') == 'repeated-timer':
+            o = run_driver(impl, [], tmp, rt=[c['schedule']])[1][0]
+            ok = not ('Stop' in c['schedule'] and o['threads'] != 0)
+            print(json.dumps(dict(case=c, impl=o, holds=ok), indent=1))
+            return 0 if ok else 1
         o = run_driver(impl, [c], tmp)[0]
     finally:
         shutil.rmtree(tmp, ignore_errors=True)
